@@ -926,6 +926,10 @@ func c08PrefilledSliceComplete(c *Ctx) {
 // Reset() — which RevertHead does call — purging the LRU only: after a reorg back to the same height the pre-reorg window
 // keeps answering event queries.
 func c08ResetComplete(c *Ctx, t *types.Named, construct string) {
+	c08ResetCompleteAs(c, t, "cache-coherence", construct)
+}
+
+func c08ResetCompleteAs(c *Ctx, t *types.Named, rule, construct string) {
 	p := c.P
 	st, ok := t.Underlying().(*types.Struct)
 	if !ok || t.Obj().Pkg() == nil || !strings.HasPrefix(t.Obj().Pkg().Path(), modPath) {
@@ -941,7 +945,7 @@ func c08ResetComplete(c *Ctx, t *types.Named, construct string) {
 		if pt, isPtr := rt.(*types.Pointer); isPtr {
 			rt = pt.Elem()
 		}
-		if !types.Identical(rt, t) {
+		if !sameNamedOrigin(rt, t) {
 			continue
 		}
 		switch fn.Name() {
@@ -955,7 +959,7 @@ func c08ResetComplete(c *Ctx, t *types.Named, construct string) {
 			if pt, isPtr := r0.(*types.Pointer); isPtr {
 				r0 = pt.Elem()
 			}
-			if types.Identical(r0, t) {
+			if sameNamedOrigin(r0, t) {
 				continue
 			}
 		}
@@ -1001,7 +1005,7 @@ func c08ResetComplete(c *Ctx, t *types.Named, construct string) {
 				}
 			}
 		}
-		c.check(handled, "cache-coherence", construct+": "+t.Obj().Name()+"."+fld+" forgotten by "+drops[0].Name()+"()", p.Pos(st.Field(i).Pos()), "what the cache object remembers in this field is dropped by its "+drops[0].Name()+"()",
+		c.check(handled, rule, construct+": "+t.Obj().Name()+"."+fld+" forgotten by "+drops[0].Name()+"()", p.Pos(st.Field(i).Pos()), "what the cache object remembers in this field is dropped by its "+drops[0].Name()+"()",
 			"the cache object's "+drops[0].Name()+"() — which the revert relies on — leaves field "+fld+" (written by "+w+") untouched: whatever is memoised there survives a reorg (a memo keyed by a height or a counter is re-used when the chain comes back to the same height with different blocks)")
 	}
 }
@@ -1010,7 +1014,16 @@ func isNamedT(t types.Type, want *types.Named) bool {
 	if pt, ok := t.(*types.Pointer); ok {
 		t = pt.Elem()
 	}
-	return types.Identical(t, want)
+	return sameNamedOrigin(t, want)
+}
+
+// sameNamedOrigin: t is want, or an instantiation of the same generic type.
+func sameNamedOrigin(t types.Type, want *types.Named) bool {
+	if types.Identical(t, want) {
+		return true
+	}
+	nt, ok := t.(*types.Named)
+	return ok && nt.Origin() == want.Origin()
 }
 
 // c08FillAfterSuccess: (cache-coherence, fill-after-success clause) an entry is put into a cache of the chain object only on
